@@ -19,7 +19,7 @@ Granularity (DESIGN §5): one event = one lock region / one channel operation of
   `pending.remove(id)` under the lock) → `deliver` (`sender.send`, outside the lock);
   `readErr` (EOF, reset, malformed frame, WebSocket close: enters `fail_all_pending`), then one
   `failStep` per statement of `fail_all_pending` in the order extracted from the source
-  (`shutdownWriter`, `takeNotify`, `drainPending`, `sendErrors` — one send per step), then the
+  (`shutdownWriter`, `takeNotify`, `drainPending` or `closeAndDrain`, `sendErrors` — one send per step), then the
   loop ends (`finished`); senders still held when the function returns are dropped (the receiver
   sees "channel closed").
 * `skip`: a notify *sent by the client* consumes an id; `subscribe`/`unsubscribe`.
@@ -75,6 +75,7 @@ deriving DecidableEq, Repr
 
 inductive FailStep where
   | shutdownWriter | takeNotify | drainPending | sendErrors
+  | closeAndDrain     -- one region of the pending lock: mark the connection failed (registrations are refused from now on) and drain
 deriving DecidableEq, Repr
 
 inductive Reader where
@@ -105,6 +106,7 @@ structure State where
   calls : Nat → Call := fun _ => {}
   reader : Reader := .idle
   writerShut : Bool := false
+  regClosed : Bool := false             -- `failed` flag read by `register` under the pending lock
   sub : Option Nat := none              -- generation of the subscriber sender in the slot
   gen : Nat := 0
   subQueue : List (Nat × Frame) := []   -- (generation, frame) pushed to subscribers
@@ -160,7 +162,8 @@ def step (cfg : Cfg) (s : State) : Ev → State
   | .register c =>
     let k := s.calls c
     if canRegister cfg k then
-      if cfg.rejectDup && (ids s.pending).contains k.id then
+      if s.regClosed then setCall s c { k with pc := .returned .connErr }
+      else if cfg.rejectDup && (ids s.pending).contains k.id then
         setCall s c { k with pc := .returned .dupId }
       else
         setCall { s with pending := (k.id, c) :: erase s.pending k.id } c { k with reg := true }
@@ -222,6 +225,8 @@ def step (cfg : Cfg) (s : State) : Ev → State
     | .failing (.shutdownWriter :: r) w g => { s with writerShut := true, reader := .failing r w g }
     | .failing (.takeNotify :: r) w g => { s with sub := none, reader := .failing r w g }
     | .failing (.drainPending :: r) w g => { s with pending := [], reader := .failing r (w ++ s.pending) g }
+    | .failing (.closeAndDrain :: r) w g =>
+      { s with regClosed := true, pending := [], reader := .failing r (w ++ s.pending) g }
     | .failing (.sendErrors :: r) [] g => { s with reader := .failing r [] g }
     | .failing (.sendErrors :: r) (e :: w) g =>
       push { s with reader := .failing (.sendErrors :: r) w g } e.2 .connErr
@@ -234,12 +239,15 @@ def step (cfg : Cfg) (s : State) : Ev → State
 
 def run (cfg : Cfg) (s : State) (evs : List Ev) : State := evs.foldl (step cfg) s
 
-/-- `shutdownWriter` is executed before the first `drainPending`, and a `drainPending` exists. -/
-def shutBeforeDrain : List FailStep → Bool
-  | [] => false
-  | .shutdownWriter :: r => r.contains .drainPending
-  | .drainPending :: _ => false
-  | _ :: r => shutBeforeDrain r
+/-- The failure path is safe against late callers: every plain `drainPending` happens when writes
+already fail or registrations are already refused (`guarded`), and the map is drained at least once
+(`drained`).  `closeAndDrain` guards and drains in one step. -/
+def goodOrder (guarded drained : Bool) : List FailStep → Bool
+  | [] => drained
+  | .shutdownWriter :: r => goodOrder true drained r
+  | .closeAndDrain :: r => goodOrder true true r
+  | .drainPending :: r => guarded && goodOrder guarded true r
+  | _ :: r => goodOrder guarded drained r
 
 /-! ### batch: a work queue of `(index, request)`, workers store the call's result at the index -/
 
